@@ -16,7 +16,7 @@ import numpy as np
 from .. import models
 from ..core import RunResult, adigest, mix
 from ..driver import pristine_library_state
-from .hist_common import SAME, TAU, contain, draw_container, quiet, with_entropy
+from .hist_common import SAME, TAU, clone, contain, draw_container, quiet, with_entropy
 from .hist_common import call_value as _call_value
 from .pool_common import maybe_integer_dtype, symmetric_game
 
@@ -216,14 +216,23 @@ def make_subject(M, res, kind, gs, like=None):
         if sub.forms != ["array", "array"]:
             sub.meta["containers"] = sub.forms
             res.probe("other_container")
+        sub.reps_arg = sub.reps
+        if gs.draw(3) == 0:
+            sub.reps_arg = np.int64(sub.reps)  # what `for r in np.arange(1, 4)` hands over
+            sub.meta["reps_type"] = "np.int64"
+    if kind == "bcs":
+        sub.forms = [gs.weighted([("array", 3), ("fortran", 2), ("view", 1), ("transposed_twice", 1)]) for _ in sub.base_cons]
+        if any(f != "array" for f in sub.forms):
+            sub.meta["containers"] = sub.forms
+            res.probe("other_container")
 
     def build():
         """Fresh object from fresh copies of the generated data."""
         if kind == "bcs":
-            cons = [c.copy() for c in sub.base_cons]
+            cons = [np.ascontiguousarray(c.T).T if f == "transposed_twice" else contain(c, f) for c, f in zip(sub.base_cons, sub.forms)]
             return M.NonlocalGame.from_bcs_game(cons, 1), cons
         p, v = contain(sub.base_prob, sub.forms[0]), contain(sub.base_pred, sub.forms[1])
-        return M.NonlocalGame(p, v, sub.reps), (p, v)
+        return M.NonlocalGame(p, v, sub.reps_arg), (p, v)
 
     sub.build = build
     try:
@@ -301,6 +310,15 @@ def run(cs, tier, run_index):
         meta = dict(_pub(sub.meta), object_index=si, objects=len(subs))
         key = opkey(op)
         ent = op.get("entropy", 0)
+        if ws.draw(6) == 0:
+            # the caller continues with a copy of the object (deep copy / pickle round trip / shallow copy)
+            how = ws.draw(3)
+            try:
+                sub.game = clone(sub.game, how)
+            except Exception as e:
+                res.violate("C07.op.raises", op=["deepcopy", "pickle", "copy"][how], exc=type(e).__name__, msg=str(e)[:200], position=k, **meta)
+                break
+            res.probe("object_cloned")
         with with_entropy(ent):
             out = call_value(apply(sub.game, op), res, op["op"])
         res.log.add("op", k, si, key, out[1] if out[0] == "ok" else out[:2])
